@@ -2,7 +2,7 @@
    range.  Only the property theorems, each closed by [exact]; proofs live in
    Midi/MidiProofs.v, the model in Midi/MidiModel.v, the Spec in Midi/MidiSpec.v. *)
 From Coq Require Import List ZArith QArith.
-From RtoscV Require Import Midi.MidiModel Midi.MidiSpec Midi.MidiProofs Midi.MidiFloat.
+From RtoscV Require Import Midi.MidiModel Midi.MidiSpec Midi.MidiProofs Midi.MidiFloat Midi.MidiProto.
 Import ListNotations.
 Local Open Scope Z_scope.
 
@@ -55,3 +55,26 @@ Theorem C20_bijection_monotone_partial : forall rf rd p a x1 x2,
   (dy2Q (pmin p) <= dy2Q (pmax p))%Q -> 0 <= x1 -> x1 <= x2 -> x2 < 16384 ->
   mval_le (mvalue (cb_gen rf rd (mk_cb p a) x1)) (mvalue (cb_gen rf rd (mk_cb p a) x2)).
 Proof. exact cb_monotone. Qed.
+
+(* Learning in a quiescent history.  quiescent (MidiSpec) = no midi-bind that
+   is not the answer to a midi-use-CC is sent while a controller is pending,
+   and no controller is offered while such a bind is on its way; it is the
+   classifier bind-crosses-use-cc of the run-time check.  Then, for every
+   history over at most 32 distinct controllers and at every event (fresh_run,
+   MidiProto): no snapshot on either side holds a controller twice, and each
+   midi-use-CC <id> that reaches the non-realtime side finds a queued address
+   (the oldest: useFreeID takes the head) and a controller that occurs in no
+   entry of the current snapshot - so it is never given a second address.
+   Full statement (all histories): false, see C20_refuted. *)
+Theorem C20_quiescent_learn_partial : forall ports evs tr fin U,
+  (length U <= 32)%nat -> incl (ccids evs) U -> Forall (fun x => 0 <= x) (ccids evs) ->
+  run ports world0 evs = (tr, fin) -> quiescent evs tr = true ->
+  fresh_run ports world0 evs.
+Proof. exact quiescent_fresh. Qed.
+
+Theorem C20_quiescent_learn_nonvacuous :
+  exists ports evs tr fin U,
+    (length U <= 32)%nat /\ incl (ccids evs) U /\ Forall (fun x => 0 <= x) (ccids evs) /\
+    run ports world0 evs = (tr, Some fin) /\ quiescent evs tr = true /\
+    assigned_targets 5 tr = [(1, true)] /\ assigned_targets 6 tr = [(1, false)].
+Proof. exact quiescent_fresh_nonvacuous. Qed.
